@@ -51,6 +51,11 @@ impl<const BITS: usize, const LIMBS: usize> Uint<BITS, LIMBS> {
 //@ import core MAX
 //@ import core apply_mask
 //@ import core as_limbs
+//@ import bitlen leading_zeros
+//@ import bitlen bit_len
+//@ import basics is_zero
+//@ import basics ONE
+//@ import basics bit
 
     // bridge: lvr/bp view of the limb array == val()
     pub proof fn lemma_val_lvr(self)
